@@ -203,7 +203,7 @@ def run(index, tier="quick", seed=0) -> Result:
             kconst = e.right.const
             # the smallest count for which a non-zero residual raises, found by folding the guard of the raise (so that
             # `n > 3 and not close`, `not (n <= 3 or close)`, a guard bound to a local first ... are all read the same way)
-            thr = _guard_threshold(e.func.node, e.node)
+            thr = _guard_threshold(e.func.node, e.node, kconst)
             if thr is None:
                 if e.op in ("Gt", "GtE"):
                     thr = kconst if e.op == "Gt" else kconst - 1
@@ -273,7 +273,7 @@ def run(index, tier="quick", seed=0) -> Result:
     return res
 
 
-def _guard_threshold(fn_node, cmp_node):
+def _guard_threshold(fn_node, cmp_node, kconst=None):
     """largest count n for which the residual test is NOT applied: fold the test of the `if` that raises, with the count
     comparison evaluated at n and the closeness test of the residual set to False (residual non-zero); None if the guard
     is not a boolean combination of exactly these two ingredients."""
@@ -287,7 +287,7 @@ def _guard_threshold(fn_node, cmp_node):
         if depth > 6:
             raise Unknown()
         if t is cmp_node:
-            c = ast.literal_eval(t.comparators[0])
+            c = kconst if kconst is not None else ast.literal_eval(t.comparators[0])
             op = t.ops[0]
             return {ast.Gt: n > c, ast.GtE: n >= c, ast.Lt: n < c, ast.LtE: n <= c}[type(op)]
         if isinstance(t, ast.BoolOp):
